@@ -86,6 +86,16 @@ def substitutions(grams, curt):
         out.append(("count-huge", g0[:4] + b"____" + g0[8:]))
         out.append(("foreign-mid", g1[:8] + b"0A" + b"x" * 20 + g1[30:]))
         out.append(("bad-b64-in-count", g0[:4] + b"A!A*" + g0[8:]))
+    # every code the format defines (zeroth / non-zeroth, signed / unsigned, acks) and undefined neighbours, on every gram
+    from hio.help import helping
+    for k, g in enumerate(grams):
+        for code in ["bAA" + c for c in "ABCDEFGHIJKL"] + ["bAB_", "aAAA"]:
+            head = helping.codeB64ToB2(code) if curt else code.encode()
+            if g[:len(head)] != head:
+                out.append(("code-%s-on-gram-%d" % (code, k), head + g[len(head):]))
+                if not curt and k == 1:       # and padded / cut to the length that code expects
+                    out.append(("code-%s-short" % code, head + g[len(head):40]))
+                    out.append(("code-%s-long" % code, head + g[len(head):] + b"A" * 200))
     out.append(("signature-of-other-gram", g1[:-88] + g2[-88:] if len(g1) > 88 and len(g2) > 88 else g1))
     out.append(("body-of-other-gram", g1[:30] + g2[30:]))
     return out
